@@ -1,5 +1,5 @@
 fn main() {
     let mut out = bytes::BytesMut::new();
     h2::verif::hpack::huffman_encode(b"hello", &mut out);
-    println!("{:?}", &out[..]);
+    println!("{}", h2verif_harness::json_bytes(&out[..]));
 }
